@@ -51,7 +51,7 @@ import (
 type hdrOp struct {
 	K string `json:"k"`
 	V string `json:"v"`
-	A bool   `json:"a"`
+	A string `json:"a"` // "t" / "f": append stated true / false; "d": append omitted in the configuration
 }
 type level struct {
 	Add []hdrOp  `json:"add"`
@@ -134,8 +134,12 @@ func adds(l level) []*v2.HeaderValueOption {
 	}
 	out := []*v2.HeaderValueOption{}
 	for _, o := range l.Add {
-		a := o.A
-		out = append(out, &v2.HeaderValueOption{Header: &v2.HeaderValue{Key: o.K, Value: o.V}, Append: &a})
+		opt := &v2.HeaderValueOption{Header: &v2.HeaderValue{Key: o.K, Value: o.V}}
+		if o.A != "d" {
+			a := o.A == "t"
+			opt.Append = &a
+		}
+		out = append(out, opt)
 	}
 	return out
 }
